@@ -568,7 +568,12 @@ func cmdCheck(eng *Engine, o options, start time.Time) int {
 				solverTime += a.Time
 			}
 			if ob.Canary {
-				if ob.Result.Verdict == "unsat" {
+				if ob.Result.Verdict == "unsat" && ob.BlockCanary && !ob.HasContractObl {
+					// dead under the contracts in force, and nothing the contract states is inside:
+					// reported, not an alarm (typically a diagnostic branch for data the contract excludes)
+					rep.Verdict = "block-unreachable-under-contract"
+					fmt.Printf("NOTE: %s at %s is unreachable under the contracts in force (no contract obligation inside)\n", ob.Name, ob.Pos)
+				} else if ob.Result.Verdict == "unsat" {
 					rep.Verdict = "vacuous"
 					total++
 					fr.Obligations++
